@@ -300,6 +300,21 @@ pub fn s_cltv() -> Vec<WCfg> {
             c.templates[a2].spec.cltv_expiry = e2;
             out.push(c);
         }
+        // generous incoming expiries: the policy delta is the binding cap
+        for (name, e1, e2) in [("far1", h0.saturating_add(p + 1000), 0u32), ("far2", h0.saturating_add(p + 5000), h0.saturating_add(p + 300))] {
+            let mut c = mk(name);
+            let inv = c.add_invoice(&InvoiceSpec::fixed(1, 1_000_000));
+            if e2 == 0 {
+                let a = c.add_htlc("a", inv, 1_005_000, 1_005_000);
+                c.templates[a].spec.cltv_expiry = e1;
+            } else {
+                let a1 = c.add_htlc("a1", inv, 600_000, 1_005_000);
+                let a2 = c.add_htlc("a2", inv, 405_000, 1_005_000);
+                c.templates[a1].spec.cltv_expiry = e1;
+                c.templates[a2].spec.cltv_expiry = e2;
+            }
+            out.push(c);
+        }
         // an HTLC whose relative expiry is below the policy delta, at either position
         for first in [true, false] {
             let mut c = mk(if first { "lowexp-first" } else { "lowexp-second" });
